@@ -1120,6 +1120,84 @@ impl Distinfo {
 //@ end
 }
 
+// ---- functions of src/digest.rs that feed C12 but are outside the verifier's reach (generic over the RustCrypto
+// hasher traits, BufReader::split, iterator folds over format!): pinned, any change makes the unit undecided and the
+// bounded stand-in of C12 (replay search, independent patch-filter oracle) runs instead.
+//@ watch src/digest.rs : fn hash_patch_internal
+fn hash_patch_internal<R: Read, D: digest::Digest + std::io::Write>(
+    reader: &mut R,
+) -> DigestResult<String> {
+    let mut hasher = D::new();
+    let bufreader = BufReader::new(reader);
+
+    for line in bufreader.split(b'\n') {
+        let line = line?;
+        if line.windows(7).any(|window| window == b"$NetBSD") {
+            continue;
+        }
+        hasher.update(&line);
+        hasher.update(b"\n");
+    }
+
+    let hash = hasher
+        .finalize()
+        .iter()
+        .fold(String::new(), |mut output, b| {
+            output.push_str(&format!("{b:02x}"));
+            output
+        });
+    Ok(hash)
+}
+//@ end
+//@ watch src/digest.rs : fn hash_file_internal
+fn hash_file_internal<R: Read, D: digest::Digest + std::io::Write>(
+    reader: &mut R,
+) -> DigestResult<String> {
+    let mut hasher = D::new();
+    std::io::copy(reader, &mut hasher)?;
+    let hash = hasher
+        .finalize()
+        .iter()
+        .fold(String::new(), |mut output, b| {
+            output.push_str(&format!("{b:02x}"));
+            output
+        });
+    Ok(hash)
+}
+//@ end
+//@ watch src/digest.rs : impl Digest fn hash_patch
+    pub fn hash_patch<R: Read>(&self, reader: &mut R) -> DigestResult<String> {
+        match self {
+            Digest::BLAKE2s => {
+                hash_patch_internal::<_, blake2::Blake2s256>(reader)
+            }
+            Digest::MD5 => hash_patch_internal::<_, md5::Md5>(reader),
+            Digest::RMD160 => {
+                hash_patch_internal::<_, ripemd::Ripemd160>(reader)
+            }
+            Digest::SHA1 => hash_patch_internal::<_, sha1::Sha1>(reader),
+            Digest::SHA256 => hash_patch_internal::<_, sha2::Sha256>(reader),
+            Digest::SHA512 => hash_patch_internal::<_, sha2::Sha512>(reader),
+        }
+    }
+//@ end
+//@ watch src/digest.rs : impl Digest fn hash_file
+    pub fn hash_file<R: Read>(&self, reader: &mut R) -> DigestResult<String> {
+        match self {
+            Digest::BLAKE2s => {
+                hash_file_internal::<_, blake2::Blake2s256>(reader)
+            }
+            Digest::MD5 => hash_file_internal::<_, md5::Md5>(reader),
+            Digest::RMD160 => {
+                hash_file_internal::<_, ripemd::Ripemd160>(reader)
+            }
+            Digest::SHA1 => hash_file_internal::<_, sha1::Sha1>(reader),
+            Digest::SHA256 => hash_file_internal::<_, sha2::Sha256>(reader),
+            Digest::SHA512 => hash_file_internal::<_, sha2::Sha512>(reader),
+        }
+    }
+//@ end
+
 /// byte-string literals used by Line::from_bytes
 pub proof fn reveal_strlit_bytes() { }
 pub proof fn lemma_nonempty_step(v: Seq<&[u8]>, i: int)
